@@ -3,6 +3,7 @@ package main
 import (
 	"regexp"
 	"strings"
+	"unicode"
 	"unicode/utf8"
 
 	"ariga.io/atlas/sql/migrate"
@@ -129,11 +130,20 @@ func cskip(right string, n int, l string) (int, string, bool) {
 func trimmed(cmd string) bool { return cmd != "" && strings.TrimSpace(cmd) == cmd }
 
 func scanClosed(o migrate.ScannerOptions, d string, cmd string) bool {
+	return scanClosedF(o, d, cmd, d+"\n")
+}
+
+// scanClosedNL: ClosedNLModel.v scan_closed_nl (the delimiter on the next line, d <> ";").
+func scanClosedNL(o migrate.ScannerOptions, d string, cmd string) bool {
+	return d != ";" && scanClosedF(o, d, cmd, "\n"+d+"\n")
+}
+
+func scanClosedF(o migrate.ScannerOptions, d string, cmd string, follow string) bool {
 	if !trimmed(cmd) {
 		return false
 	}
 	live := d == ";" && (o.MatchBegin || o.MatchBeginAtomic || o.MatchBeginTryCatch)
-	n, l := len(cmd), cmd+d+"\n"
+	n, l := len(cmd), cmd+follow
 	start, depth := true, 0
 	prev := -1 // byte before l
 	for {
@@ -222,4 +232,127 @@ func scanClosed(o migrate.ScannerOptions, d string, cmd string) bool {
 		}
 		start = false
 	}
+}
+
+// ---- Go port of Lex/FmtHyp.v: roundtrip_hyp (the decidable hypothesis of C07_roundtrip)
+
+func commentOK(c string) bool  { return !strings.Contains(c, "\n") }
+func commentOK2(c string) bool { return commentOK(c) && !strings.HasPrefix(c, "atlas:delimiter") }
+func directiveOK(x string) bool {
+	return strings.HasPrefix(x, "--") && commentOK(x) && !strings.HasPrefix(x, "-- atlas:delimiter")
+}
+
+// modelLines: FmtModel.lines (bufio.ScanLines).
+func modelLines(s string) []string {
+	if s == "" {
+		return nil
+	}
+	ls := strings.Split(s, "\n")
+	if ls[len(ls)-1] == "" {
+		ls = ls[:len(ls)-1]
+	}
+	for i, l := range ls {
+		ls[i] = strings.TrimSuffix(l, "\r")
+	}
+	return ls
+}
+
+func toolComment(c string) string {
+	if c == "" {
+		return ""
+	}
+	return "-- " + c + "\n"
+}
+
+func dbmateOK(up string) bool {
+	for _, l := range modelLines(up) {
+		if strings.HasPrefix(l, "-- migrate:") || strings.Contains(l, "-- migrate:up") || strings.Contains(l, "down") {
+			return false
+		}
+	}
+	return !strings.Contains(up, "\r")
+}
+
+const gooseDelim = "-- ATLAS_DELIM_END"
+
+func gooseEnds(l string) bool { return strings.HasSuffix(l, ";") && !strings.HasPrefix(l, "--") }
+
+func gooseChangeOK(cmd, comment string) bool {
+	text := toolComment(comment) + cmd + ";\n"
+	ls := modelLines(text)
+	for i, l := range ls {
+		if strings.HasPrefix(l, "-- +goose") || strings.Contains(l, "-- +goose Up") || strings.Contains(l, "Down") ||
+			strings.Contains(l, "StatementBegin") || strings.Contains(l, "StatementEnd") {
+			return false
+		}
+		if strings.TrimRightFunc(l, unicode.IsSpace) != l {
+			return false
+		}
+		if gooseEnds(l) != (i == len(ls)-1) {
+			return false
+		}
+	}
+	return !strings.Contains(text, "\r") && !strings.HasPrefix(toolComment(comment), gooseDelim)
+}
+
+type hypChange struct {
+	cmd, comment string
+	reverse      []string
+}
+
+func roundtripHyp(format string, o migrate.ScannerOptions, delimiter string, directives []string, cs []hypChange) bool {
+	generic := migrate.ScannerOptions{MatchBeginAtomic: true, MatchDollarQuote: true}
+	switch format {
+	case "atlas":
+		d := ";"
+		if delimiter != "" {
+			d = delimiter
+			if !delimOK(d) || d[0] == '-' {
+				return false
+			}
+		}
+		for _, x := range directives {
+			if !directiveOK(x) {
+				return false
+			}
+		}
+		for _, c := range cs {
+			if !scanClosed(o, d, c.cmd) || !commentOK(c.comment) {
+				return false
+			}
+		}
+		return true
+	case "golang-migrate", "flyway", "dbmate":
+		up := ""
+		for _, c := range cs {
+			if !scanClosed(generic, ";", c.cmd) || !commentOK2(c.comment) {
+				return false
+			}
+			up += toolComment(c.comment) + c.cmd + ";\n"
+		}
+		return format != "dbmate" || dbmateOK(up)
+	case "liquibase":
+		if len(cs) == 0 {
+			return false
+		}
+		for _, c := range cs {
+			if !scanClosed(o, ";", c.cmd) || !commentOK(c.comment) {
+				return false
+			}
+			for _, r := range c.reverse {
+				if !commentOK(r) {
+					return false
+				}
+			}
+		}
+		return true
+	case "goose":
+		for _, c := range cs {
+			if !gooseChangeOK(c.cmd, c.comment) || !commentOK(c.comment) || !scanClosedNL(generic, gooseDelim, c.cmd+";") {
+				return false
+			}
+		}
+		return true
+	}
+	return false
 }
